@@ -10,3 +10,6 @@ def run(ctx):
     # tree states: the same frame comparison along TtnHeap histories (both mirrored universes)
     from . import c11
     c11.run(ctx, owned=OWNED)
+    # tree time evolution: input compared before/after every TTNS.evolve call (4 schemes, real and imaginary time)
+    from . import c12
+    c12.run(ctx, owned="C13")
